@@ -361,7 +361,9 @@ impl<'a> IExec<'a> {
     #[allow(clippy::too_many_arguments)]
     pub fn do_send(&mut self, ctx: &mut Ctx, caller: u8, tok: &TokRef, chain: u8, dst: u8, amount: &IAmt, data: Option<u8>, gas_tok: u8, gas: i64, auth: AuthVar, abort: Option<u16>) {
         let env = self.sim.env.clone();
-        let ci = 2 + caller as usize % 4;
+        // caller 200: the service's own address named as sender by an outside caller
+        let self_caller = caller == 200;
+        let ci = if self_caller { H_ITS } else { 2 + caller as usize % 4 };
         let its = self.its();
         let resolved = self.resolve_tok(tok);
         let (id, t_opt, native) = match resolved {
@@ -404,7 +406,10 @@ impl<'a> IExec<'a> {
         if auth.is_fault() {
             ctx.count(&format!("F7.interchain_transfer.{}", auth.name()));
         }
-        let (entries, auth_ok) = match resolve_auth(auth, &c) {
+        if self_caller {
+            ctx.count("probe.contract_address_named_as_caller_from_outside");
+        }
+        let (entries, auth_ok) = match if self_caller { None } else { resolve_auth(auth, &c) } {
             None => (vec![], false),
             Some((w, other)) => {
                 let mut root = AuthNode::new(&its, "interchain_transfer", args.clone());
@@ -530,14 +535,27 @@ impl<'a> IExec<'a> {
         // announced if it went through: for a canonical token that is not registered the
         // would-be payload is still known (the token's own metadata), so a missing
         // registration check cannot hide behind a mismatching authorisation
-        let would_be: Option<(String, String, u32)> = meta.clone().or_else(|| {
-            canonical.map(|tk| {
+        let mut would_be_id = id;
+        let would_be: Option<(String, String, u32)> = meta.clone().or_else(|| match canonical {
+            Some(tk) => {
                 let t = tk as usize % self.toks.len();
-                (self.toks[t].name.clone(), self.toks[t].symbol.clone(), self.toks[t].decimals)
-            })
+                Some((self.toks[t].name.clone(), self.toks[t].symbol.clone(), self.toks[t].decimals))
+            }
+            None => {
+                // a foreign caller re-using the original deployer's salt: if the id were
+                // (wrongly) derived without the caller, the deployer's token would be announced
+                let sb = salt_bytes(salt);
+                (2..6usize).filter(|o| *o != ci).find_map(|o| {
+                    let oid = its_token_id(&its_deploy_salt(&self.cfg.chain_name, &saddr(&self.h[o]), &sb));
+                    self.m.registry.get(&oid).map(|(t, _)| {
+                        would_be_id = oid;
+                        (self.toks[*t].name.clone(), self.toks[*t].symbol.clone(), self.toks[*t].decimals)
+                    })
+                })
+            }
         });
         let payload: Vec<u8> = match &would_be {
-            Some((n, s, d)) => AHub { send: true, chain: dchain.to_string(), msg: AMsg::Deploy { id, name: n.clone(), symbol: s.clone(), decimals: *d as u8, minter: vec![] } }.encode(),
+            Some((n, s, d)) => AHub { send: true, chain: dchain.to_string(), msg: AMsg::Deploy { id: would_be_id, name: n.clone(), symbol: s.clone(), decimals: *d as u8, minter: vec![] } }.encode(),
             None => vec![],
         };
         let c = AuthCtx { right: ci, former: None, other_role: 1, counterparty: 2 + (caller as usize + 1) % 4, owner: self.m.owner, stranger: STRANGER };
